@@ -72,6 +72,15 @@ def gen(tier, rng):
                     continue
                 cases.append(rz.resize_case(pt, sw, sh, dw, dh, alg="conv", flt=flt, m=1, alpha=False, cpu=cpu, src_c={"g": "data", "v": data},
                                             log=("src", "dst", "hooks", "imgs"), chk=("pipeline", "ret_ok")))
+    # alpha-aware down-scales of a crop deep inside the source: the kernel reaches premultiplied pixels far outside the box
+    for pt in ("U8x2", "U8x4", "U16x2", "U16x4", "F32x2", "F32x4"):
+        for (sw, sh, dw, dh, box) in ((22, 18, 2, 2, (7, 5, 8, 8)), (30, 6, 3, 2, (10, 2, 9, 2))):
+            n += 1
+            if tier == "quick" and rz.pick(n, 319, [0, 1]):
+                continue
+            cases.append(rz.resize_case(pt, sw, sh, dw, dh, alg="conv", flt=rz.pick(n, 320, ["Lanczos3", "Bilinear", "Mitchell"]), m=1, alpha=True, box=box, Q=1,
+                                        cpu=rz.pick(n, 321, rz.CPUS), src_c={"g": "data", "v": content(pt, "rand", sw, sh, rng)},
+                                        log=("src", "dst", "hooks", "imgs"), chk=("pipeline", "ret_ok")))
     # sub-pixel shifts without a size change and every pass-planning combination (origin integer / fractional x extent equal / different)
     Q = 4
     for pt in rz.ALL_PT:
